@@ -355,9 +355,12 @@ func (bkt *Bucket) checkAndSet(ki *KeyInfo, v *Payload) error {
 		rec.TryCompress()
 		cmem.DBRL.SetData.AddSize(rec.Payload.CArray.Cap - oldCap)
 	}
+	verifPoint("cf.w.lock", &bkt.writeLock)
 	bkt.writeLock.Lock()
+	verifPoint("cf.w.get")
 	ok := false
 	defer func() {
+		verifPoint("cf.w.unlock")
 		bkt.writeLock.Unlock()
 		if !ok && v.Ver >= 0 {
 			cmem.DBRL.SetData.SubSizeAndCount(v.CArray.Cap)
@@ -412,12 +415,14 @@ func (bkt *Bucket) set(ki *KeyInfo, v *Payload) error {
 }
 
 func (bkt *Bucket) get(ki *KeyInfo, memOnly bool) (payload *Payload, pos Position, err error) {
+	verifPoint("cf.get.enter", memOnly)
 	hintit, _ := bkt.hints.collisions.get(ki.KeyHash, ki.StringKey)
 	var meta *Meta
 	var found bool
 	if hintit == nil {
 		meta, pos, found = bkt.htree.get(ki)
 		if !found {
+			verifPoint("cf.r.ret", memOnly)
 			return
 		}
 		_ = meta
@@ -437,6 +442,7 @@ func (bkt *Bucket) get(ki *KeyInfo, memOnly bool) (payload *Payload, pos Positio
 		payload.Meta = *meta
 		return // omit collision
 	}
+	verifPoint("cf.r.buf", pos)
 	beforeGetRecord := time.Now()
 	rec, inbuffer, err := bkt.datas.GetRecordByPos(pos)
 	getRecordTimeCost := time.Now().Sub(beforeGetRecord).Seconds() * 1000 // Millisecond
